@@ -186,14 +186,37 @@ def run(tier):
     fn = "instruction::InstructionOps::get_r8"
     M = absint.Machine(P, max_depth=4)
     paths = M.explore(fn, M.arg_unknowns(fn))
-    alias = [p for p in paths if any(isinstance(s, tuple) and s[0] == 's' and s[1].startswith("get_def(") and s[1].endswith("#d") and sx.dom_size(d) == 1 for s, d in p.state.doms.items())]
-    miss = [p for p in alias if any(s[1].startswith("get_def(") and s[1].endswith("#d") and sx.dom_min(d) == 0 for s, d in p.state.doms.items() if isinstance(s, tuple) and s[0] == 's')]
+    # the discriminant of the Option that get_def returned (not the register inside a Some, whose number may be 0 as well)
+    def looked_up(p):
+        return [d for s, d in p.state.doms.items() if isinstance(s, tuple) and s[0] == 's' and s[1].startswith("get_def(") and s[1].endswith(")#d") and sx.dom_size(d) == 1]
+    alias = [p for p in paths if looked_up(p)]
+    miss = [p for p in alias if any(sx.dom_min(d) == 0 for d in looked_up(p))]
     hit = [p for p in alias if p not in miss]
     ok = bool(miss) and all(p.exit == "Err" for p in miss)
     rep.ob("C10.unbound|alias", ok, "a register alias with no .def is an error" if ok else "an undefined register alias does not fail")
-    ok = bool(hit) and all(p.exit == "Ok" and M.describe(p.state, p.ret[3][0]).endswith(":Some.0") and "get_def(" in M.describe(p.state, p.ret[3][0]) for p in hit)
+    # a bound alias yields the stored register itself; it may be refused only because the selected device lacks that register (a device
+    # flag is set on the path), and without such a flag every register 0..31 goes through
+    def flags_set(p):
+        return [s[1] for s, d in p.state.doms.items() if isinstance(s, tuple) and s[0] == 's' and s[1].startswith("contains(get_device(") and sx.dom_size(d) == 1 and sx.dom_min(d) == 1]
+    okh = [p for p in hit if p.exit == "Ok"]
+    same = all(M.describe(p.state, p.ret[3][0]).endswith(":Some.0") and "get_def(" in M.describe(p.state, p.ret[3][0]) for p in okh)
+    refused = [p for p in hit if p.exit != "Ok"]
+    by_device = all(flags_set(p) for p in refused)
+    through = None
+    for p in okh:
+        if flags_set(p):
+            continue
+        for s, d in p.state.doms.items():
+            if isinstance(s, tuple) and s[0] == 's' and s[1].startswith("get_def(") and s[1].endswith(":Some.0#d"):
+                through = d if through is None else sx.dom_union(through, d)
+        if not any(isinstance(s, tuple) and s[0] == 's' and s[1].startswith("get_def(") and s[1].endswith(":Some.0#d") for s in p.state.doms):
+            through = sx.dom_range(0, 31)
+    every = through is not None and sx.dom_subset(sx.dom_range(0, 31), through)
+    ok = bool(okh) and same and by_device and every
     rep.ob("C10.alias|identity", ok, "an alias resolves to exactly the register stored by .def (the encoder then sees the same register value, C01)" if ok else
-           "get_r8 does not return the stored register unchanged for an alias")
+           ("get_r8 does not return the stored register unchanged for an alias" if not same or not okh else
+            "a bound alias is refused although no device flag says the register is missing" if not by_device else
+            "a bound alias does not resolve for every register (resolves for %s)" % (sx.dom_show(through) if through is not None else "none")))
     # ---- duplicate labels, undef, sequencing from the pass tables
     rows1, _, _ = L.pass1_rows(P)
     labs = [r for r in rows1 if r.item == "Label"]
